@@ -167,17 +167,18 @@ PROPS = {
     },
     "C15": {
         "level": "model_checking",
-        "kani": ["c15_blake"],
+        "kani": ["c15_blake", "c15_sha"],
         "verus": [],
         "level_text": "Layout contracts on the BLAKE3 hashers with the primitive replaced by a recorder: the bytes handed to "
                       "blake3 are exactly the documented layout and the digest is its (truncated) output, for every byte, "
                       "digest, integer and element value; hash_elements is independent of the internal representation.",
-        "level_note": "Trusted: the blake3 primitive (never entered). Bounded input lengths (5 bytes, 2-3 digests, 2 elements). "
-                      "SHA3-256 entry points and extension-field element lists are not under contract yet.",
+        "level_note": "Trusted: the blake3 / sha3 primitives (never entered; sha3::Sha3_256 is replaced by a recorder type through a "
+                      "cfg-split import). Bounded input lengths (5 bytes, 2-3 digests, 2 elements). Extension-field "
+                      "element lists and Blake3_192 hash_elements are not under contract yet.",
     },
     "C16": {
         "level": "model_checking",
-        "kani": ["c16_rp64"],
+        "kani": ["c16_rp64", "c16_rp62"],
         "verus": [],
         "level_text": "Sponge rules of Rp64_256 (capacity initialisation, 7-byte chunking, single padding byte, rate-block "
                       "boundaries, merge == hash_elements of 8, merge_with_int split at the modulus) as contracts on the "
@@ -185,12 +186,12 @@ PROPS = {
                       "element / digest / integer value, enumerated lengths.",
         "level_note": "PARTIAL: the permutation itself (S-box, inverse S-box chain, frequency-domain MDS vs the MDS matrix, "
                       "round constants vs the publication) is NOT under contract - SAT cannot decide the multiplications "
-                      "and Verus rejects the slice patterns / closures of that code. Rp62_248 and the Jive variant are "
-                      "not under contract yet.",
+                      "and Verus rejects the slice patterns / closures of that code. Rp62_248 sponge rules are under the "
+                      "same contracts; the Jive variant is not under contract.",
     },
     "C17": {
         "level": "model_checking",
-        "kani": ["c16_rp64", "c15_blake"],
+        "kani": ["c16_rp64", "c16_rp62", "c15_blake"],
         "verus": [],
         "level_text": "Necessary condition decided by contracts: the encoding handed to the permutation / primitive is "
                       "injective on the structured families (zero-extensions, chunk boundaries, trailing zero elements, "
